@@ -162,6 +162,10 @@ def main():
             del sink[:]
             rw.ResultsWriter(vb).write({"keyword": "bm_V", "fname": "my_bulk.txt", "unit": "rydberg / bohr^3"})
             out["override"] = list(sink)
+            # a file-name override on a tensor keyword: a pattern with the documented placeholders, one file per component
+            del sink[:]
+            rw.ResultsWriter(pb).write({"keyword": "cij_t", "fname": "my_c{ij}_{base}.txt"})
+            out["tensor-fname-override"] = list(sink)
             # a unit override for every rule (last alias of each group), both bases
             for base, tag in ((vb, "tv"), (pb, "tp")):
                 for grp, pattern, unit, what in ORACLE:
@@ -270,6 +274,19 @@ def main():
                     if not same_array(got[fname], want[fname]):
                         fails.append("%s/%s: unit override '%s' is not honoured (content of %s)" % (tag, grp[-1], ALT_UNIT[unit][0], fname))
                         break
+        tfo = res.get("tensor-fname-override", [])
+        want_tfo = {"my_c%d%d_tp.txt" % k.v: v for k, v in expected(pb, "tensor:isothermal").items()}
+        got_tfo = {}
+        for c in tfo:
+            got_tfo.setdefault(c[1], []).append(c[2])
+        if set(got_tfo) != set(want_tfo) or any(len(v) != 1 for v in got_tfo.values()):
+            fails.append("file-name override 'my_c{ij}_{base}.txt' on a tensor keyword: files written %s (x%s) instead of one per component %s" % (
+                sorted(got_tfo)[:3], [len(v) for v in got_tfo.values()][:3], sorted(want_tfo)[:3]))
+        else:
+            for fname, v in want_tfo.items():
+                if not same_array(got_tfo[fname][0], numpy.asarray(v, dtype=object) * U["GPa"]):
+                    fails.append("file-name override on a tensor keyword: %s does not hold its component" % fname)
+                    break
         ov = res["override"]
         if len(ov) != 1 or ov[0][1] != "my_bulk.txt" or not same_array(ov[0][2], vb.bulk_modulus_voigt):
             fails.append("fname / unit override of a dict entry is not honoured")
@@ -424,6 +441,16 @@ def replay(chk, cc, rw, rng, reason):
         got = pandas.read_table(os.path.join(tmp, "my_bm_tp.txt"), sep=r"\s+", index_col=0, header=0).to_numpy()
         if got.shape != kv[:-4, :].shape or numpy.abs(got - kv[:-4, :]).max() > 1e-10 * numpy.abs(kv).max():
             chk.violation("writer:override-content", "file my_bm_tp.txt (unit override rydberg / bohr^3) does not hold K_V in that unit", {})
+            return
+        # a file-name override with placeholders on a tensor keyword: one file per component
+        for f in os.listdir(tmp):
+            os.unlink(os.path.join(tmp, f))
+        rw.ResultsWriter(pb).write({"keyword": "cij_t", "fname": "my_c{ij}_{base}.txt"})
+        files = sorted(os.listdir(tmp))
+        want_files = sorted("my_c%d%d_tp.txt" % c_(k[1:]).v for k in keys)
+        if files != want_files:
+            chk.violation("writer:tensor-fname-override", "{keyword: cij_t, fname: 'my_c{ij}_{base}.txt'} writes %s instead of one file per component %s" % (
+                files[:3], want_files[:3]), dict(files=files))
             return
         # unit overrides on scalar rules of each documented unit
         for kw, unit_o, fac, prop in (("vp", "m/s", 1000.0, "primary_velocities"), ("vs", "m/s", 1000.0, "secondary_velocities"),
